@@ -175,28 +175,59 @@ func propAuxFailure(t *rapid.T) {
 	j := rapid.IntRange(0, 33).Draw(t, "j")
 	msg := gen.Bytes(t, 0, 64, "msg")
 	rd := &gen.ScriptedReader{Data: gen.Bytes(t, 40, 40, "aux"), FailAfter: j}
-	rd.Err, rd.ErrWithData, _ = gen.FailureKind(t, "fail")
+	var kind string
+	rd.Err, rd.ErrWithData, kind = gen.FailureKind(t, "fail")
+	if rapid.IntRange(0, 4).Draw(t, "panics") == 0 {
+		rd.Err, rd.ErrWithData, kind = gen.ErrPanic, false, "panic"
+	}
 	if rapid.Bool().Draw(t, "chunked") {
 		rd.Chunks = rapid.SliceOfN(rapid.IntRange(1, 33), 1, 4).Draw(t, "chunks")
 	}
 	source := gen.Sampled([]string{"argument", "argument", "process-default"}).Draw(t, "source")
-	stat.Case("auxfail", []string{fmt.Sprintf("j:%d", j), "source:" + source}, true, []byte(fmt.Sprintf("%d|%x|%x|%v|%s", j, dPrime, msg, rd.Chunks, source)), func() any {
-		return map[string]any{"fail_after": j, "chunks": rd.Chunks, "source": source}
+	stat.Case("auxfail", []string{fmt.Sprintf("j:%d", j), "source:" + source, "failure:" + kind}, true, []byte(fmt.Sprintf("%d|%x|%x|%v|%s|%s", j, dPrime, msg, rd.Chunks, source, kind)), func() any {
+		return map[string]any{"fail_after": j, "chunks": rd.Chunks, "source": source, "failure": kind}
 	})
 	key, _ := bitcoin.NewSchnorrPrivateKey(ref.B32(dPrime))
 	var sig []byte
 	var err error
-	if source == "argument" {
-		sig, err = key.Sign(rd, msg, nil)
-	} else { // nil argument: the process-wide source is the reader
-		gen.WithProcessEntropy(rd, func() { sig, err = key.Sign(nil, msg, nil) })
+	panicked := lib.Catch(func() {
+		if source == "argument" {
+			sig, err = key.Sign(rd, msg, nil)
+		} else { // nil argument: the process-wide source is the reader
+			gen.WithProcessEntropy(rd, func() { sig, err = key.Sign(nil, msg, nil) })
+		}
+	})
+	if panicked != nil && (kind != "panic" || j >= 32) {
+		t.Fatalf("Sign panicked: %v", panicked)
 	}
 	if j < 32 {
-		if err == nil || sig != nil {
+		if panicked == nil && (err == nil || sig != nil) {
 			t.Fatalf("Sign succeeded although the aux source failed after %d bytes", j)
 		}
 	} else if err != nil {
 		t.Fatalf("Sign failed with 32 aux bytes available: %v", err)
+	}
+	// The key object is used again after its source failed (or panicked and the caller recovered):
+	// the signature is still the BIP-340 function of (key, aux, message), and the call returns.
+	aux2 := gen.Bytes(t, 32, 32, "aux2")
+	msg2 := gen.Bytes(t, 0, 40, "msg2")
+	want, ok := ref.BIP340Sign(dPrime, aux2, msg2)
+	if !ok {
+		return
+	}
+	var sig2 []byte
+	var err2 error
+	returned, p2, stuck := lib.Watch(func() {
+		sig2, err2 = key.Sign(&gen.ScriptedReader{Data: aux2, FailAfter: -1}, msg2, nil)
+	})
+	if !returned {
+		t.Fatalf("Sign on a key whose previous aux source failed (%s after %d bytes) never returns: the call is parked with nobody left to wake it: %s", kind, j, stuck)
+	}
+	if p2 != nil || err2 != nil {
+		t.Fatalf("Sign after a failed aux source (%s after %d bytes): panic=%v err=%v", kind, j, p2, err2)
+	}
+	if !bytes.Equal(sig2, want) {
+		t.Fatalf("Sign(d=%x, aux=%x, msg=%x) after a failed aux source = %x, BIP-340 says %x", dPrime, aux2, msg2, sig2, want)
 	}
 }
 
